@@ -2,7 +2,7 @@
 from . import common as C
 
 LEAN_MODULE = "Urandom.Props.C10"
-RULE = ("requests: every generator (Xoshiro256, SplitMix64, Wyrand, ChaCha8/12/20, Mock, System<N> over the scripted entropy source) x destination lengths 0..600 (+4 KiB) x start offsets 0..15 inside a larger arena "
+RULE = ("requests: every generator (Xoshiro256, SplitMix64, Wyrand, ChaCha8/12/20, Mock, System<N> over the scripted entropy source) x destination lengths 0..600 (+4 KiB, + 25 fills of 64 KiB .. 128 KiB at all alignment classes) x start offsets 0..15 inside a larger arena "
         "x element types u8/u16/u32/u64/u128/[u8;3]/[u32;5] x fill_bytes / fill_bytes_uninit / random_bytes / io::Read::read / read_exact, after a random prefix of draws; "
         "each case runs twice on canary backgrounds 0x00 and 0xFF: bytes, canaries, full initialisation, reported length and the next draw are compared with the model. "
         "non-trivial = length > 0; distinct = distinct request line")
@@ -45,6 +45,18 @@ def generate(r, tier, build):
         off = r.below(16) // align * align
         reqs.append("fillb gen=%s %s api=%s elem=%s off=%d count=%d pre=%s" % (gen, src, api, elem, off, count, ",".join(pre)))
     return reqs
+
+
+def big_fills():
+    """fills of 64 KiB and more at every alignment class: a bulk path that is switched on by the LENGTH and aligns the destination by hand"""
+    out = []
+    shapes = [("fill_bytes", "u8", 3, 65536), ("fill_bytes", "u8", 5, 100003), ("fill_bytes_uninit", "u8", 1, 65535), ("fill_bytes", "u8", 0, 65537), ("fill_bytes", "u8", 8, 70001),
+              ("fill_bytes", "u16", 2, 40000), ("read", "u8", 5, 66000), ("read_exact", "u8", 7, 65543), ("fill_bytes", "u32", 4, 20001), ("fill_bytes", "u8", 15, 131077)]
+    for gi, gen in enumerate(("xoshiro", "splitmix", "wyrand", "chacha12")):
+        for si, (api, elem, off, count) in enumerate(shapes):
+            if (gi + si) % 2 == 0 or gen == "xoshiro":
+                out.append("fillb gen=%s seed=%d api=%s elem=%s off=%d count=%d pre=%s" % (gen, 1000 + 17 * si + gi, api, elem, off, count, "u32" if si % 3 == 0 else ""))
+    return out
 
 
 def corpus(build):
@@ -96,10 +108,20 @@ def extra(binary, build, tier, rng):
             shape = rng.choice([x for x in RB if x != "rb0"])
             nbytes, off = RBLEN[shape], shape
         cases.append((gen, seed, pre, nbytes, off, api))
+    # fills of 64 KiB and more at every alignment class (implementation only: the list-based model driver is too slow for them)
+    big = []
+    for q in big_fills():
+        d = dict(t.split("=", 1) for t in q.split()[1:])
+        if d["gen"] in ("xoshiro", "splitmix", "wyrand"):
+            big.append((d["gen"], int(d["seed"]), [x for x in d["pre"].split(",") if x], int(d["count"]) * ELEMS[d["elem"]][0], int(d["off"]), d["api"], q))
+    if build == "dev" or tier != "quick":
+        cases += [b[:6] for b in big]
     reqs = []
     for gen, seed, pre, nbytes, off, api in cases:
         if api == "random_bytes":
             reqs.append("fillb gen=%s seed=%d api=random_bytes elem=%s pre=%s" % (gen, seed, off, ",".join(pre)))
+        elif any(b[:2] == (gen, seed) and b[3] == nbytes and b[4] == off and b[5] == api for b in big):
+            reqs.append(next(b[6] for b in big if b[:2] == (gen, seed) and b[3] == nbytes and b[4] == off and b[5] == api))
         else:
             reqs.append("fillb gen=%s seed=%d api=%s elem=u8 off=%d count=%d pre=%s" % (gen, seed, api, off, nbytes, ",".join(pre)))
         reqs.append("word gen=%s seed=%d via=from_seed ops=%s" % (gen, seed, ",".join(pre + ["u64"] * ((nbytes + 7) // 8 + 1))))
@@ -107,6 +129,10 @@ def extra(binary, build, tier, rng):
     for k, (gen, seed, pre, nbytes, off, api) in enumerate(cases):
         fr, wr = res[2 * k], res[2 * k + 1]
         if fr == "panic" or wr == "panic":
+            continue
+        o = oracle(reqs[2 * k], fr, build) if nbytes >= 65535 else None      # the big fills do not pass through the main stream: canaries / initialisation / length here
+        if o:
+            yield {"kind": "oracle", "build": build, "request": reqs[2 * k], "impl": fr[:300], "model": "", "oracle": o}
             continue
         ft = dict(t.split(":", 1) for t in fr.split())
         words = [int(t) for t in wr.split()[len(pre):] if t.isdigit()]
@@ -119,4 +145,11 @@ def extra(binary, build, tier, rng):
         elif ft.get("next") != str(words[(nbytes + 7) // 8]):
             # the property fixes the bytes, not how far the generator has advanced afterwards: reported, not judged
             yield {"kind": "note", "text": "%s: after the %d-byte fill the generator is not exactly ceil(n/8) words further" % (reqs[2 * k], nbytes)}
+    if build == "dev" or tier != "quick":
+        cq = [q for q in big_fills() if "gen=chacha" in q]
+        rc, cres, err = C.run_lines(binary, ["run"], cq)
+        for q, fr in zip(cq, cres):
+            o = oracle(q, fr, build) if fr != "panic" else "a fill of 64 KiB or more panicked"
+            if o:
+                yield {"kind": "oracle", "build": build, "request": q, "impl": fr[:300], "model": "", "oracle": o}
     yield {"kind": "count", "what": "le-word-stream-checks", "n": len(cases)}
